@@ -80,7 +80,10 @@ def analyse_path(path, fn_name=None, extra_alloc=(), carried=()):
     field_loads_released = []     # (value, addr it was loaded from, release event)
     escaped_then_released = []
     local_dirty = {}              # alloca addr -> event that made it own content
+    top = min([e.depth for e in path.events] or [0])
     for i, e in enumerate(path.events):
+        if e.kind == 'call' and e.inlined:
+            continue          # its body follows
         if e.kind == 'call':
             n = e.name
             res = e.res
@@ -149,7 +152,7 @@ def analyse_path(path, fn_name=None, extra_alloc=(), carried=()):
                 else:
                     o.state = 'escaped'
                 o.store_addrs.append(e.addr)
-        elif e.kind == 'ret':
+        elif e.kind == 'ret' and e.depth == top:
             v = e.val
             if v is not None:
                 base = v
